@@ -265,6 +265,44 @@ def _small_plus_rare(ob, axioms, seed, t0, per_try_ms=5000):
     return False
 
 
+def _own_facts_stage(ob, axioms, seed, t0):
+    """Goal-directed first try after the fast stage: the hypotheses about the goal's own (rare)
+    symbols - the loop state it talks about, the current callee results, hints - plus the tiny
+    quantifier-free facts (ranges, path conditions).  Irrelevant quantified hypotheses are what
+    makes most slow proofs slow (instantiation noise); a proof from a subset is a proof."""
+    hyps = list(ob.pc)
+    if len(hyps) < 10:
+        return False
+    hs = [_syms(h) for h in hyps]
+    freq = {}
+    for ss in hs:
+        for x in ss:
+            freq[x] = freq.get(x, 0) + 1
+    gs = _syms(ob.goal)
+    for rare_max, cap, ms in ((3, 120, 2000), (4, 300, 3000)):
+        rare = {x for x in gs if freq.get(x, 0) <= rare_max}
+        own = {i for i, ss in enumerate(hs) if ss & rare}
+        # ... and the most recent facts on the path (current iteration: callee results, hints)
+        keep = own | {i for i, h in enumerate(hyps) if _slen(h) <= cap and not _has_quant(h)} | set(range(max(0, len(hyps) - 16), len(hyps)))
+        if len(keep) == len(hyps):
+            return False
+        s = z3.Solver()
+        s.set("timeout", ms)
+        s.set("random_seed", seed)
+        for a in axioms:
+            s.add(a)
+        for i in sorted(keep):
+            s.add(hyps[i])
+        s.add(z3.Not(ob.goal))
+        if s.check() == z3.unsat:
+            ob.status = "discharged"
+            ob.backend = "z3"
+            ob.seconds = time.time() - t0
+            ob.reason = f"proved from {len(keep)} of {len(hyps)} hypotheses (those about the goal's own symbols, the 16 most recent, and quantifier-free facts <= {cap} chars)"
+            return True
+    return False
+
+
 def _drop_large(ob, axioms, seed, t0, per_try_ms=4000):
     quant = [(i, _size(p)) for i, p in enumerate(ob.pc) if _has_quant(p)]
     if len(quant) < 2:
@@ -331,6 +369,8 @@ def discharge(ob, axioms, timeout_ms=None, use_cvc5=True, seed=0):
     s.set("timeout", min(FAST_MS, timeout_ms))
     r = s.check()
     stage3 = False
+    if r == z3.unknown and timeout_ms > FAST_MS and _own_facts_stage(ob, axioms, seed, t0):
+        return ob
     if r == z3.unknown and timeout_ms > FAST_MS:
         # stage 2+3: cvc5 (background process) and z3 with the full budget (fresh solver), whichever
         # decides first
